@@ -24,13 +24,15 @@ def regsStr (s : St) (srq : List Reg) (cb : List Int) : String :=
   (if cb.isEmpty then "-" else "/".intercalate (cb.map toString))
 
 /-- parse an implementation observation token back into (registers, count, srq values) -/
-def parseRObs (cap : Nat) (t : String) : Option (St × List Reg) :=
+def parseRObs (cap : Nat) (t : String) : Option (St × List Reg × Bool) :=
   match t.splitOn "," with
   | [rs, qn, srq, _] => do
     let regs ← (rs.splitOn ".").mapM (fun h => (parseHexNat h).map (BitVec.ofNat 16))
     let qn ← qn.toNat?
-    let srq ← if srq == "-" then some [] else (srq.splitOn "/").mapM (fun h => (parseHexNat h).map (BitVec.ofNat 16))
-    some ({ regs, qn, cap, srq := [], errcb := [] }, srq)
+    -- an entry "vvvv!ssss" means the callback value vvvv differed from the status byte ssss at that moment
+    let items := if srq == "-" then [] else srq.splitOn "/"
+    let srqv ← items.mapM (fun h => (parseHexNat ((h.splitOn "!").headD "")).map (BitVec.ofNat 16))
+    some ({ regs, qn, cap, srq := [], errcb := [] }, srqv, items.any (fun h => (h.splitOn "!").length > 1))
   | _ => none
 
 def isClearing (ev : Nat) : Op → Bool
@@ -44,7 +46,7 @@ def isClearing (ev : Nat) : Op → Bool
   | _ => false
 
 /-- judge one transition of the implementation: before, op, after, srq values emitted -/
-def judgeR (before : St) (op : Op) (after : St) (srq : List Reg) : List String :=
+def judgeR (before : St) (op : Op) (after : St) (srq : List Reg) (srqStale : Bool := false) : List String :=
   let c11 := if op.ok && decide (Coherent before) && !decide (Coherent after) then
       -- name the equivalence that broke
       let stb := get after STB
@@ -69,6 +71,7 @@ def judgeR (before : St) (op : Op) (after : St) (srq : List Reg) : List String :
       if op.ok && !isClearing ev op && (get before ev &&& ~~~(get after ev)) != 0 then ["C12.event_lost"] else [])
   let c12srq :=
     (if srq.any (fun v => v &&& stbSRQ == 0) then ["C12.srq_without_mss"] else []) ++
+    (if srqStale then ["C12.srq_value_not_status_byte"] else []) ++
     (if op.ok && decide (Coherent before) && !mss before && mss after && srq.isEmpty then ["C12.srq_missing_on_rise"] else []) ++
     (if op.ok && !mss after && !srq.isEmpty && !(match op with | .errPush _ => true | .cls => true | _ => false) then ["C12.srq_while_mss_clear"] else [])
   c11 ++ c12class ++ c12latch ++ c12mono ++ c12srq
@@ -87,7 +90,7 @@ def runRegs (inp : List String) (obs : List String) : Option Verdict := do
     else
       let (_, r) := (List.zip ops obs).foldl (fun (acc : Option St × List String) x =>
         match acc.1, parseRObs cap x.2 with
-        | some before, some (after, srq) => (some after, acc.2 ++ judgeR before x.1 after srq)
+        | some before, some (after, srq, stale) => (some after, acc.2 ++ judgeR before x.1 after srq stale)
         | _, _ => (none, acc.2 ++ ["C11.malformed_observation"])) (some (St.init cap), [])
       r.eraseDups
   let kinds := ops.map (fun o => match o with
